@@ -77,7 +77,8 @@ C09Step(pre, a, post) ==
 MineLive(pre, c) == {x \in DOMAIN pre : pre[x].c = c /\ pre[x].e > 0}
 TopOf(pre, S, req) ==
     IF req \in S THEN {req} ELSE {x \in S : \A z \in S : pre[z].e <= pre[x].e}
-\* known finding C09-1: the single row that step 1 (live leases) or step 2 (any
+\* former finding C09-1 (repaired; the disjunct is kept so that the shape keeps its name and MC can be run with
+\* KnownC09 = TRUE against the old behaviour): the single row that step 1 (live leases) or step 2 (any
 \* lease, live or expired) of select_address looks at lies outside the serving
 \* pool, so a lease the client holds INSIDE the pool is never considered.
 MineAny(pre, c) == {x \in DOMAIN pre : pre[x].c = c}
@@ -130,19 +131,19 @@ C13Shape(pre, a, post) ==
 (***************************************************************************)
 Fall == [y |-> 0, L |-> 0, how |-> "fall"]
 
+\* (since the repair of C09-1 steps 1 and 2 consider the client's rows INSIDE the serving pool only;
+\*  before it they looked at the single best row of all and gave up when that one was outside)
 Sel1(pre, c, req, P) ==
-    LET S == MineLive(pre, c) IN
+    LET S == MineLive(pre, c) \cap P IN
     IF S = {} THEN {Fall}
-    ELSE {IF x \in P THEN [y |-> x, L |-> 3 * (0 - pre[x].s), how |-> "reuse"] ELSE Fall
-            : x \in TopOf(pre, S, req)}
+    ELSE {[y |-> x, L |-> 3 * (0 - pre[x].s), how |-> "reuse"] : x \in TopOf(pre, S, req)}
 
 Sel2(pre, c, req, P, Sat) ==
-    LET S == {x \in DOMAIN pre : pre[x].c = c}
+    LET S == {x \in DOMAIN pre : pre[x].c = c} \cap P
         T == IF req \in S THEN {req}
              ELSE {x \in S : \A z \in S \ Sat : pre[z].e <= pre[x].e}   \* e of a saturated row is an upper bound
     IN IF S = {} THEN {Fall}
-       ELSE {IF x \in P THEN [y |-> x, L |-> 2 * (pre[x].e - pre[x].s), how |-> "revive"] ELSE Fall
-               : x \in T}
+       ELSE {[y |-> x, L |-> 2 * (pre[x].e - pre[x].s), how |-> "revive"] : x \in T}
 
 Sel3(pre, c, req, P) ==
     IF req # 0 /\ req \in P /\ ~BlockedP(Row(pre, req))
